@@ -21,12 +21,22 @@ pub mod prelude {
 thread_local! {
     /// simulated task id -> size of the pool it is a worker of
     static POOL_OF_TASK: RefCell<HashMap<usize, usize>> = RefCell::new(HashMap::new());
+    static POOL_EPOCH: std::cell::Cell<u64> = const { std::cell::Cell::new(0) };
+}
+
+/// Task ids restart at 0 in every simulation: forget entries left by a run that ended abnormally.
+fn fresh_epoch() {
+    let e = simcore::sim::run_epoch();
+    if POOL_EPOCH.with(|c| c.replace(e)) != e {
+        POOL_OF_TASK.with(|m| m.borrow_mut().clear());
+    }
 }
 
 fn current_pool_size() -> usize {
     if !in_sim() {
         return 1;
     }
+    fresh_epoch();
     let me = current_task();
     POOL_OF_TASK
         .with(|m| m.borrow().get(&me).copied())
@@ -34,6 +44,7 @@ fn current_pool_size() -> usize {
 }
 
 fn register(task: usize, n: usize) {
+    fresh_epoch();
     POOL_OF_TASK.with(|m| {
         m.borrow_mut().insert(task, n);
     });
